@@ -1,1 +1,2 @@
 import GBExtracted.Tables
+import GBExtracted.Forms
